@@ -88,7 +88,7 @@ mod misc {
                 allow_external_function_fallbacks: false,
                 externals: HashMap::with_capacity(0),
                 #[cfg(feature = "verif-hooks")]
-                verif_fuel: None,
+                verif_fuel: crate::story::verif_hooks::construction_fuel(),
                 #[cfg(feature = "verif-hooks")]
                 verif_async_step_budget: None,
             };
